@@ -17,7 +17,7 @@ from ..repo import AnalysisError, attr_chain, norm, walk_no_nested
 from ..consteval import NotConstant
 
 LEVEL = "other"
-TECHNIQUE = "AST enumeration of all parse-error sites checked against the evaluated message table; structural funnel and handler checks"
+TECHNIQUE = ("AST enumeration of all parse-error sites checked against the evaluated message table; structural funnel and handler checks; table of handlers that record an error unconditionally vs the standard's parse-error cells")
 CLAIM = ('Every one of the ~230 parse-error sites (whether or not any input reaches it) names a code with a '
          "message template in constants.E and supplies the template's variables, so strict mode can only raise "
          'ParseError at an error site; errors are recorded before the strict raise through a single funnel, '
